@@ -240,8 +240,13 @@ pub fn bitfield(args: TokenStream, input: TokenStream) -> TokenStream {
             .iter()
             .map(|field| {
                 let field_name = &field.field_name;
+                // A raw identifier (e.g. r#type) is printed without the r# prefix, like derive(Debug) does
+                let field_name_string = field_name.to_string();
+                let printed_name = field_name_string
+                    .strip_prefix("r#")
+                    .unwrap_or(&field_name_string);
                 quote! {
-                    .field(stringify!(#field_name), &self.#field_name())
+                    .field(#printed_name, &self.#field_name())
                 }
             })
             .collect();
